@@ -193,3 +193,38 @@ func init() {
 		},
 	}
 }
+
+func init() {
+	plans["C10"] = &plan{
+		level: "model_checking",
+		rule: "(structure, code->spec) every clause of bootstrap.pl and seeded random clauses (heads and body goals with atoms, numbers, strings, nested compounds, proper and partial lists, repeated and singleton variables, variable " +
+			"goals, cut, top-level disjunctions, if-then-else), each added through consult and through assertz/asserta with variables already bound in the calling environment and arguments built at run time by append/3 and " +
+			"atom_chars/2, are dumped through the accessor hook (stored term, number of variables, bytecode) and TLC checks every record with Decompile.tla: the bytecode denotes the stored term (Denotes) and allocates exactly " +
+			"its variables (NVarsOK). (behaviour, spec->code) GenClause: every clause of a pool x loading path (consult / assertz with a variable bound before and another bound after the assert) -> clause/2 listing, retract/1 of " +
+			"an instance, and probe calls predicted by Engine.tla and replayed. distinct_nontrivial = distinct clause records / cases",
+		assume:  []string{"the accessor hook exports the compiled clauses faithfully (it converts opcodes to names and nothing else)"},
+		trusted: []string{"TLC", "Decompile.tla", "Engine.tla", "engine.VerifProcedures"},
+		run: func(c *checkCtx) {
+			for _, cfg := range []string{"GenClause_" + c.tier + ".cfg"} {
+				r := c.mcHolds("GenClause", cfg, tlcOpts{})
+				cases, results := c.replay("engine", r.cases, replayOpts{})
+				c.judge("engine", cases, results, func(cs, res map[string]J) string { in, _ := res["input"].(string); return in })
+			}
+			n := 150
+			if c.tier == "thorough" {
+				n = 3000
+			}
+			gen := filepath.Join(c.work, "compiled.ndjson")
+			c.vhRun("gen", "compiled", "--seed", strconv.FormatInt(c.seed, 10), "--n", strconv.Itoa(n), "--out", gen)
+			traces := c.recordTraces("compiled", gen, replayOpts{}, func(cs map[string]J) map[string]J { return map[string]J{} })
+			// one trace per clause record so that a rejection names the clause
+			var single []*rtrace
+			for _, t := range traces {
+				for _, l := range t.lines[1:] {
+					single = append(single, &rtrace{cs: t.cs, input: t.input + "\n record: " + oneLine(string(l), 700), lines: [][]byte{t.lines[0], l}})
+				}
+			}
+			c.validateTraces("compiled", "DecompileTrace", "DecompileTrace.cfg", single, traceOpts{})
+		},
+	}
+}
